@@ -426,6 +426,29 @@ def run_fit(case):
         if np.any(np.abs(band - want) > 2e-2 * want + 1e-6 * np.max(want) + 1e-9 * float(np.max(np.abs(ref.d)))):  # kafe2 differentiates numerically (numdifftools, step 1e-2*|p|): <= 0.6 % measured
             raise Violation(f"error-band[{backend}]", f"{tag}: error_band({xb.tolist()}) = {band.tolist()}, sqrt(diag(J C J^T)) = {want.tolist()} (fixed: {list(fixed_vals)})")
         labels.add("band")
+        # the band follows the covariance matrix of the *latest* fit: fix one more parameter where it is (the optimum stays, the covariance shrinks), fit
+        # again and ask for the band at the same points
+        if len(free) >= 2 and case.get("band_refit", True):
+            try:
+                fit.fix_parameter(free[-1])
+                fit.do_fit()
+                ok2 = bool(fit.errors_valid) and fit.parameter_cov_mat is not None
+            except Exception:  # noqa
+                ok2 = False
+            if ok2:
+                free2 = free[:-1]
+                f2 = [names.index(nm) for nm in free2]
+                with guard("error_band"):
+                    band2 = np.asarray(fit.error_band(xb), float)
+                p2 = dict(zip(names, np.asarray(fit.parameter_values, float)))
+                J2 = ref.fam.jac(xb, ref.pvec(p2))
+                J2 = np.array([J2[ref.canon.index(nm)] for nm in free2]) * (ref.y_scale or 1.0)
+                C2 = np.asarray(fit.parameter_cov_mat, float)[np.ix_(f2, f2)]
+                want2 = np.sqrt(np.clip(np.einsum("ik,ij,jk->k", J2, C2, J2), 0, None))
+                if np.all(np.isfinite(want2)) and np.any(np.abs(band2 - want2) > 2e-2 * want2 + 1e-6 * np.max(want2) + 1e-9 * float(np.max(np.abs(ref.d)))):
+                    raise Violation(f"error-band-after-refit[{backend}]", f"{tag}: after fixing {free[-1]} at its fitted value and fitting again: error_band({xb.tolist()}) = {band2.tolist()}, "
+                                    f"sqrt(diag(J C J^T)) with the new covariance = {want2.tolist()}")
+                labels.add("band_after_refit")
     # the fit is still at its optimum
     with guard("parameter_values"):
         pv2 = np.asarray(fit.parameter_values, float)
